@@ -67,6 +67,35 @@ CHECKS = {
     design="6/C05", technique="TLA+ spec (Candidates.tla) + TLC model checking + TLC trace validation of candidate formation",
     note=TRUSTED + "Pairs exhaustive in thorough (sampled in quick), triples/quadruples sampled; defining genes are "
          "single-base genes at core starts."),
+ "C20": dict(
+    text=("SafeWrite.tla models the results writers as convert(i,j)*, dumps, open(truncate), write with a fault planted at any "
+          "conversion point (to_json call or inside the final dumps; TypeError / other exception / unserialisable value / invalid "
+          "result type / top-level field) and states FailedImpliesOld (failed => bytes old and reported) and Success => new; TLC "
+          "checks them for every configuration under the documented order and under the order-free relation used for trace "
+          "validation, with two negative controls (open-before-convert, swallowed failure) that must violate. Every configuration "
+          "(0..3 records x 0..3 modules quick, 0..4 thorough, both writers) is executed against the real write_to_file / "
+          "dump_records with stub module results and a wrapped builtins.open; TLC replays the logged Convert/Ser/Open/Write events "
+          "through the spec's actions and decides the state of the target's bytes. Directory guard: all 392 configurations of "
+          "pre-existing contents x fresh/reuse run through the real prepare_output_directory; TLC decides refuse/accept against a "
+          "must-refuse / must-accept sandwich and that a refusal leaves the recursive listing untouched."),
+    design="6/C20", technique="TLA+ spec (SafeWrite.tla) + TLC model checking with negative controls + TLC trace validation (event replay) of fault-injected real calls",
+    note=TRUSTED + "Open/Write are seen through builtins.open/io.open only. Dot-files as only foreign contents (P16), an absent "
+         "directory and reuse from a json outside the directory are unspecified by design. Each run also ships corrupted events "
+         "that TLC must reject."),
+ "C18": dict(
+    text=("Pool.tla models parallel_function as multiprocessing.Pool.starmap_async does it (chunk = ceil(n/(4*cpus)), FIFO chunks, "
+          "workers, collector by index, ready only when all chunks reported, timeout, cpus = 1 shortcut) with task outcomes "
+          "ok/raises/hangs; TLC explores every interleaving (n <= 4, cpus <= 3, all outcome vectors; n = 9 with chunks of two quick; "
+          "n <= 5, cpus <= 4, n in {9,10} thorough) and checks ResultsInArgumentOrder, FailureSurfaces, TimeoutSurfaces, "
+          "NeverShorter, termination, plus two negative controls. Every finished model state is a completion order that is forced "
+          "on the real parallel_function through barrier files; what the caller got is decided by TLC in Pool_Trace. Worker counts "
+          "1..16 with batches below/at/above the pool size, parallel_execute with shell commands behind the same barriers, and 84 "
+          "TLC-enumerated record contents (origin-spanning genes/regions, sectioned CDS tuples) through the pool, pickle, "
+          "sanitise_sequence and ensure_cds_info are validated by the same trace spec."),
+    design="6/C18", technique="TLA+ spec (Pool.tla) + TLC model checking of all completion orders + forced-schedule replay on the real pool + TLC trace validation",
+    note=TRUSTED + "Hanging schedules and the chunked configuration are seeded samples of the TLC schedules. With cpus = 1 the "
+         "timeout is ignored as documented. Gene finding is a stub (no prodigal). A schedule that cannot be enforced within 30 s is "
+         "exit 2 (machinery), never a violation."),
 }
 CHECKS_END = None
 NOT_BUILT = "not built yet (work in progress, see DESIGN.md section 10 build order)"
